@@ -273,7 +273,6 @@ seq_t dtw_distance(seq_t *s1, idx_t l1,
         ec = ec_next;
         // Deal with Psi-relaxation in last column
         if (settings->psi_1e != 0 && minj == l2 && l1 - 1 - i <= settings->psi_1e) {
-            assert(!(settings->window == 0 || settings->window == l2) || (i1 + 1)*length - 1 == curidx);
             if (dtw[i1*length + l2 - skip] < psi_shortest) {
                 // the last value of this row (also when the last cells were skipped)
                 psi_shortest = dtw[i1*length + l2 - skip];
@@ -521,7 +520,6 @@ seq_t dtw_distance_ndim(seq_t *s1, idx_t l1,
         ec = ec_next;
         // Deal with Psi-relaxation in last column
         if (settings->psi_1e != 0 && minj == l2 && l1 - 1 - i <= settings->psi_1e) {
-            assert(!(settings->window == 0 || settings->window == l2) || (i1 + 1)*length - 1 == curidx);
             if (dtw[i1*length + l2 - skip] < psi_shortest) {
                 // the last value of this row (also when the last cells were skipped)
                 psi_shortest = dtw[i1*length + l2 - skip];
@@ -749,7 +747,6 @@ seq_t dtw_distance_euclidean(seq_t *s1, idx_t l1,
         ec = ec_next;
         // Deal with Psi-relaxation in last column
         if (settings->psi_1e != 0 && minj == l2 && l1 - 1 - i <= settings->psi_1e) {
-            assert(!(settings->window == 0 || settings->window == l2) || (i1 + 1)*length - 1 == curidx);
             if (dtw[i1*length + l2 - skip] < psi_shortest) {
                 // the last value of this row (also when the last cells were skipped)
                 psi_shortest = dtw[i1*length + l2 - skip];
@@ -986,7 +983,6 @@ seq_t dtw_distance_ndim_euclidean(seq_t *s1, idx_t l1,
         ec = ec_next;
         // Deal with Psi-relaxation in last column
         if (settings->psi_1e != 0 && minj == l2 && l1 - 1 - i <= settings->psi_1e) {
-            assert(!(settings->window == 0 || settings->window == l2) || (i1 + 1)*length - 1 == curidx);
             if (dtw[i1*length + l2 - skip] < psi_shortest) {
                 // the last value of this row (also when the last cells were skipped)
                 psi_shortest = dtw[i1*length + l2 - skip];
